@@ -46,7 +46,7 @@ def _canary(ep):
 
 def configs(c):
     """(build variant, forced backend level) pairs"""
-    cf = [("std-rel", 0), ("std-dbg", 0), ("std-rel", 1), ("nosimd-rel", 0)]
+    cf = [("std-rel", 0), ("std-dbg", 0), ("std-rel", 1), ("nosimd-rel", 0), ("nostd-avx2", 0)]
     if c.thorough:
         cf += [("std-rel", 2), ("std-rel", 3), ("std-rel", 4), ("std-rel", 5), ("std-dbg", 1), ("nosimd-dbg", 0)]
     return cf
